@@ -283,7 +283,9 @@ def gen_csv(rng, max_cols=6, max_rows=12):
     while len(names) < ncols:
         base = rng.choice(['Channel %d' % rng.randint(0, 7), 'clk', 'data out', 'bus[%d]' % rng.choice([0, 3, 9, 10, 12, 107]), 'D(%d)' % rng.choice([0, 7, 11, 250]),
                            'addr[7:0]', 'a b c', 'sig_%d' % rng.randint(0, 9), 'x', 'mem[%d][%d]' % (rng.randint(0, 2), rng.choice([0, 1, 31])), 'row %d[%d] q' % (rng.randint(0, 2), rng.choice([5, 64])),
-                           'sda  in', 'trail ', 'two   gaps'])      # every blank is one underscore, wherever it stands
+                           'sda  in', 'trail ', 'two   gaps',
+                           # an index before the range suffix: only the range is dropped
+                           'mem[%d][7:0]' % rng.randint(0, 3), 'a[1] b[%d:0]' % rng.choice([7, 15]), 'w[2][15:8] x'])      # every blank is one underscore, wherever it stands
         if norm_csv(base) not in [norm_csv(n) for n in names]:
             names.append(base)
     tpos = rng.randint(0, ncols)
